@@ -163,6 +163,10 @@ class World:
             return rel.join(self.operand(c["rhs"]), None if p == {"p": "lit", "v": True} else build.pred(p))
         if f == "joinl":
             return self.operand(c["lhs"]).join(rel)
+        if f == "pjoinl":
+            from lsst.daf.relation import Predicate
+            from lsst.daf.relation import _operations as ops
+            return ops.Join(Predicate.literal(True)).partial(self.operand(c["lhs"]), is_lhs=True).apply(rel)
         if f == "joinself":
             return rel.join(rel)
         if f == "chain":
@@ -185,9 +189,9 @@ class World:
             if f == "un":
                 op = build.unary_op(c["op"])
                 t = UnaryOperationRelation(operation=op, target=t, columns=frozenset(op.applied_columns(t)))
-            elif f in ("join", "joinl", "joinself"):
+            elif f in ("join", "joinl", "pjoinl", "joinself"):
                 other = t if f == "joinself" else self.operand(c["rhs"] if f == "join" else c["lhs"])
-                lhs, rhs = (t, other) if f != "joinl" else (other, t)
+                lhs, rhs = (t, other) if f not in ("joinl", "pjoinl") else (other, t)
                 common = frozenset(x for x in lhs.columns & rhs.columns if x.is_key)
                 p = c.get("p", {"p": "lit", "v": True})
                 jop = ops.Join(build.pred(p), min_columns=common, max_columns=common)
